@@ -59,8 +59,19 @@ def main(argv=None):
         by_kind.setdefault(v["kind"], []).append(v)
     rdir = os.path.join(ROOT, "replays", pid)
     lines = []
+    unconfirmable = tuple(getattr(mod, "NO_CONFIRM_KINDS", ()))
     for kind, vs in by_kind.items():
         vs.sort(key=lambda v: len(json.dumps(v.get("case"), default=str)))
+        # a failure is trusted only if the same case fails the same way when re-executed in isolation
+        if not kind.startswith(unconfirmable) if unconfirmable else True:
+            try:
+                again = mod.replay(json.loads(json.dumps(harness.jsonable(vs[0]["case"]))))
+            except Exception as e:
+                again = [{"kind": f"harness:replay-raised {type(e).__name__}: {e}"}]
+            if kind not in [x.get("kind") for x in again]:
+                print(f"HARNESS-ERROR property={pid} violation kind {kind!r} did not reproduce when its smallest case was re-executed "
+                      f"(got {[x.get('kind') for x in again][:3]}): nondeterministic harness, not reported as a violation")
+                return 2
         os.makedirs(rdir, exist_ok=True)
         path = os.path.join(rdir, _slug(kind) + ".json")
         with open(path, "w") as f:
